@@ -104,6 +104,12 @@ add("C07", "xenum", "exploration",
     "Expected verdicts of crafted requests follow from their construction; origin-name neighbours are a small list here (C20 enumerates them).",
     "DESIGN.md 4 C07")
 
+add("C02", "xenum", "exploration",
+    "bounded exhaustive enumeration of responses handed to the real client finalization of all four token types: every single-bit flip, truncation and 3 extensions of honest responses, the full (issuer key) x (state of request i) x (response for request j) matrices, and for type 5 every sequence of element indices up to length n+1 both spliced into the honest response and evaluated afresh by the real key",
+    "Finalization returns an error, or every returned token verifies under the pinned key with an independent verifier and carries the request's nonce, challenge digest and key id; additionally the classes the statement lists (single-bit corruption, other issuer key, other request, dropped/duplicated/reordered elements) must be rejected outright.",
+    "Requests, keys, nonces are fixed alphabets (2/4 requests x 2/3 keys per type); truncations and extensions are judged semantically only.",
+    "DESIGN.md 4 C02")
+
 NOT_APPLICABLE = {}
 
 ALL = ["C%02d" % i for i in range(1, 21)]
